@@ -22,7 +22,8 @@ RULE = ('check: 1-4 model files (valid; syntax error; unknown reference at a kno
         'flag, a declared-parameter generator or a failing file present')
 REQUIRED = {'check_invocations': 300, 'check_mode_pattern': 80, 'check_mode_language': 40, 'check_two_languages_in_one_call': 30, 'check_failures_located': 100, 'generate_invocations': 500, 'bare_flags': 100,
             'dashed_names': 200, 'declared_generators': 100, 'undeclared_rejected': 30, 'missing_mandatory_rejected': 30,
-            'values_starting_with_dash': 50}
+            'values_starting_with_dash': 50, 'generate_language_pattern': 50,
+            'generate_language_with_own_generator_for_another_target': 30}
 
 GRAMMAR = '''
 Model: (defs+=Def | refs+=Ref)*;
@@ -188,9 +189,23 @@ def generate_case(ctx, r, tmp, gpath, rep):
         for n in r.sample(NAMES, r.randint(1, 3)):
             declared.append(GeneratorParam(name=n.replace('-', '_'), description='p', mandatory=r.random() < 0.5))
         ctx.count('declared_generators')
+    # how the language of the model files is found: --grammar, --language, or deduced from the file name; the language may
+    # have a generator of its own for ANOTHER target (the requested one is registered for 'any' only)
+    from textx import register_language, clear_language_registrations, LanguageDesc, metamodel_from_str
+    lang_mode = r.choice(['grammar', 'grammar', 'pattern'])     # (with --language only that language's own generators are used)
+    own_gen = lang_mode != 'grammar' and r.random() < 0.6
+    other_calls = []
     clear_generator_registrations()
+    clear_language_registrations()
     try:
         register_generator(GeneratorDesc(language='any', target='rec', description='recording', generator=gen, custom_args=declared))
+        if lang_mode != 'grammar':
+            register_language(LanguageDesc('tvlang1', pattern='*.mdl', description='l1', metamodel=lambda: metamodel_from_str(GRAMMAR)))
+            ctx.count('generate_language_' + lang_mode)
+        if own_gen:
+            register_generator(GeneratorDesc(language='tvlang1', target='summary', description='own generator, other target',
+                                             generator=lambda *a, **k: other_calls.append(a)))
+            ctx.count('generate_language_with_own_generator_for_another_target')
         nfiles = r.randint(1, 3)
         paths = []
         for k in range(nfiles):
@@ -211,7 +226,11 @@ def generate_case(ctx, r, tmp, gpath, rep):
                     ctx.count('values_starting_with_dash')
                 items.append(('val', n, v))
         # argv: options and model files interleaved
-        argv = ['generate', '--grammar', gpath, '--target', 'rec']
+        argv = ['generate', '--target', 'rec']
+        if lang_mode == 'grammar':
+            argv[1:1] = ['--grammar', gpath]
+        elif lang_mode == 'language':
+            argv[1:1] = ['--language', r.choice(['tvlang1', 'TVLANG1'])]
         if r.random() < 0.5:
             argv.append('--overwrite')
         pool = [('file', p) for p in paths] + items
@@ -283,8 +302,11 @@ def generate_case(ctx, r, tmp, gpath, rep):
             if c[1] != exp:
                 ctx.violation(classify(c[1], exp), 'generator received custom arguments %r, the command line gives %r' % (c[1], exp), wit, rep)
                 return
+        if other_calls:
+            ctx.violation(None, 'the generator of another target was called', wit, rep)
     finally:
         clear_generator_registrations()
+        clear_language_registrations()
 
 
 def classify(got, exp):
